@@ -8,8 +8,8 @@ Definition GRANULARITY_HIERARCHY : list (string * Z) :=
   [("year", (1)%Z); ("quarter", (2)%Z); ("month", (3)%Z); ("week", (4)%Z); ("day", (5)%Z); ("hour", (6)%Z)].
 
 Definition is_granularity_compatible (query_granularity : string) (preagg_granularity : string) : bool :=
-  let qlev := (assoc_get GRANULARITY_HIERARCHY query_granularity) in
+  let query_level := (assoc_get GRANULARITY_HIERARCHY query_granularity) in
   let preagg_level := (assoc_get GRANULARITY_HIERARCHY preagg_granularity) in
-  if (orb (is_none qlev) (is_none preagg_level)) then (String.eqb query_granularity preagg_granularity)
+  if (orb (is_none query_level) (is_none preagg_level)) then (String.eqb query_granularity preagg_granularity)
   else if (andb (String.eqb preagg_granularity "week") (existsb (String.eqb query_granularity) ["month"; "quarter"; "year"])) then false
-  else (opt_leb qlev preagg_level).
+  else (opt_leb query_level preagg_level).
